@@ -167,6 +167,7 @@ int main(int argc, char** argv)
 {
     if (argc < 5) return 2;
     vt::out().open(argv[1]);
+    vt::install_abort_handler();
     int maxlen = std::atoi(argv[2]);
     vt::rng g(std::strtoull(argv[3], nullptr, 10));
     bool thorough = std::atoi(argv[4]) != 0;
